@@ -473,6 +473,11 @@ func (ndb *nodeDB) deleteVersion(version int64, cache *rootkeyCache) error {
 		ndb.logger.Error("Error while pruning, moving on the the next version in the store", "version missing", version, "next version", version+1, "err", err)
 	}
 
+	literalRootKey := GetRootKey(version)
+	// rootOrphaned reports whether the root node stored under the literal root key of this
+	// version is removed together with the version (i.e. the next version does not use it).
+	rootOrphaned := false
+
 	if rootKey != nil {
 		if err := ndb.traverseOrphansWithRootkeyCache(cache, version, version+1, func(orphan *Node) error {
 			if orphan.nodeKey.nonce == 0 && !orphan.isLegacy {
@@ -481,6 +486,9 @@ func (ndb *nodeDB) deleteVersion(version int64, cache *rootkeyCache) error {
 				if err := ndb.deleteFromPruning(ndb.legacyNodeKey(orphan.hash)); err != nil {
 					return err
 				}
+			}
+			if orphan.nodeKey.nonce == 1 && orphan.nodeKey.version == version && !orphan.isLegacy {
+				rootOrphaned = true
 			}
 			if orphan.nodeKey.nonce == 1 && orphan.nodeKey.version < version {
 				// if the orphan is referred to the previous root, it should be reformatted
@@ -498,32 +506,30 @@ func (ndb *nodeDB) deleteVersion(version int64, cache *rootkeyCache) error {
 		}
 	}
 
-	literalRootKey := GetRootKey(version)
 	if rootKey == nil || !bytes.Equal(rootKey, literalRootKey) {
 		// if the root key is not matched with the literal root key, it means the given root
 		// is a reference root to the previous version.
 		if err := ndb.deleteFromPruning(ndb.nodeKey(literalRootKey)); err != nil {
 			return err
 		}
-	}
-
-	// check if the version is referred by the next version
-	nextRootKey, err := cache.getRootKey(ndb, version+1)
-	if err != nil && !errors.Is(err, ErrVersionDoesNotExist) {
-		return err
-	}
-	if bytes.Equal(literalRootKey, nextRootKey) {
-		root, err := ndb.GetNode(nextRootKey)
+	} else if !rootOrphaned {
+		// the root node of this version is still used by the next version, either as its root
+		// (reference root) or as an inner child (e.g. a single-leaf root). The literal root key
+		// must go, otherwise the deleted version would still be found; the node itself is
+		// reformatted to (version, 0), where GetNode and GetRoot fall back to.
+		// The reformatted copy is written before the literal key is deleted, so that a flush of
+		// the batch between the two operations never leaves the node without any key.
+		root, err := ndb.GetNode(literalRootKey)
 		if err != nil {
 			return err
 		}
-		// ensure that the given version is not included in the root search
-		if err := ndb.deleteFromPruning(ndb.nodeKey(literalRootKey)); err != nil {
+		// (a copy is saved: the node object may be shared with readers through the cache)
+		reformatted := *root
+		reformatted.nodeKey = &NodeKey{version: version, nonce: 0}
+		if err := ndb.saveNodeFromPruning(&reformatted); err != nil {
 			return err
 		}
-		// instead, the root should be reformatted to (version, 0)
-		root.nodeKey.nonce = 0
-		if err := ndb.saveNodeFromPruning(root); err != nil {
+		if err := ndb.deleteFromPruning(ndb.nodeKey(literalRootKey)); err != nil {
 			return err
 		}
 	}
